@@ -6,12 +6,17 @@
 (* block; the fields are read back from the real objects:                  *)
 (*   hash_match / root_match / count_match   the set's block hash, declared *)
 (*        root, number of nodes compared with the block's                  *)
+(*   croot_match   the root that the set's nodes compute to (cached by     *)
+(*        ComputeProperties on receipt) compared with the block's root: it *)
+(*        differs from root_match when the set was relabelled after receipt *)
+(*        (class "relabel": e.g. the valid set of a competing execution)   *)
 (*   accepted, state_set     no error / the copy now has a computed state  *)
 (*   root_equal, wrong, absent, missing   full walk of the copy's state    *)
 (*        compared with the walk of the executed block's state             *)
 (*   untouched, leaked       after a rejection: copy without state, status *)
-(*        unchanged, previous state reads the same; new nodes of the set   *)
-(*        found in the persistent store                                    *)
+(*        unchanged, header (hash, declared state hash, count) unchanged,  *)
+(*        previous state reads the same; new nodes of the set found in the *)
+(*        persistent store                                                 *)
 (* The action only consumes the line: every requirement is an invariant.   *)
 (* Txn lines (the transactions that built the blocks) are skipped here and *)
 (* validated by Trace_Ledger.                                              *)
@@ -30,13 +35,13 @@ TraceSpec == TraceInit /\ [][TraceNext]_vars
 
 IsSync == ev.ev = "Sync"
 Live == IsSync /\ ~IsKnown(ev)     \* not an instance of a listed known finding
-Classes == {"none", "drop", "extra", "alter", "alterinner", "wrongroot", "wronghash", "replay", "swap", "dup"}
+Classes == {"none", "drop", "extra", "alter", "alterinner", "wrongroot", "wronghash", "replay", "swap", "dup", "relabel"}
 
 NoPanic == IsSync => ~ev.panic
 (* the honest class really is the published set, and the logged verdict is coherent *)
 HarnessCoherent ==
   IsSync => /\ ev.tamper \in Classes
-            /\ (ev.tamper = "none" => (ev.hash_match /\ ev.root_match /\ ev.count_match))
+            /\ (ev.tamper = "none" => (ev.hash_match /\ ev.root_match /\ ev.count_match /\ ev.croot_match))
             /\ (ev.accepted <=> ev.stage = "")
 
 (* the published change set is accepted and reproduces exactly the executed state *)
@@ -45,9 +50,10 @@ C28_HonestReproduces ==
      /\ ev.accepted /\ ev.state_set /\ ev.root_equal
      /\ ev.missing = 0 /\ ev.wrong = 0 /\ ev.absent = 0
 
-(* a set whose block hash, root or node count does not match is rejected *)
+(* a set whose block hash, root (the declared one or the one its nodes compute to) or node count *)
+(* does not match is rejected                                                                    *)
 C28_MismatchRejected ==
-  (Live /\ (~ev.hash_match \/ ~ev.root_match \/ ~ev.count_match)) => ~ev.accepted
+  (Live /\ (~ev.hash_match \/ ~ev.root_match \/ ~ev.croot_match \/ ~ev.count_match)) => ~ev.accepted
 
 (* a rejected set leaves the local state untouched *)
 C28_RejectedUntouched ==
